@@ -166,7 +166,7 @@ PLAN = {
         "technique": "contract-based deductive verification (Verus) of the real Rope constructors, mutators, byte lookup, slicing, rendering and the observers is_empty / ends_with / starts_with / == (Rope, str, &str) against the flat string the pieces denote, under a representation invariant, extracted mechanically each run",
         "claim": "Partial, unbounded proof: with bytes() = concatenation of the pieces and the invariant `every piece records its start offset, total fits usize`, the real Rope::new / From<&str> / add / append "
                  "establish or preserve the invariant and denote exactly the concatenated text for every piece division (all four representation combinations of append, shared piece tables through Rc::make_mut); "
-                 "len() is the text's length; get_byte(i) is Some(text[i]) exactly for i < len; get_byte_slice_impl / get_byte_slice / byte_slice return the sub-text exactly for ranges that are in order, in bounds and on char "
+                 "len() is the text's length; get_byte(i) is Some(text[i]) exactly for i < len, byte(i) returns text[i] without panicking for i < len; get_byte_slice_impl / get_byte_slice / byte_slice return the sub-text exactly for ranges that are in order, in bounds and on char "
                  "boundaries of the TEXT (char boundaries of a piece are char boundaries of the text and vice versa: UTF-8 lemmas over vstd) and None/Err exactly otherwise, for every kind of range bound; no overflow, underflow or "
                  "out-of-range index on that path. byte_slice_unchecked returns the same sub-text on every call that keeps its documented contract. to_bytes() and to_string() render exactly the denoted text; `rope == str` answers exactly whether the denoted text equals the string (and never slices out of range). "
                  "Unit rope_obs: is_empty() is true exactly when the denoted text is empty; ends_with(c) exactly when the text is non-empty and its last character is c (trailing empty pieces skipped); "
